@@ -1,3 +1,4 @@
+pub mod alloc;
 pub mod ctx;
 pub mod env;
 pub mod json;
@@ -9,3 +10,6 @@ pub mod synth;
 pub mod voicegen;
 pub mod voiceread;
 pub mod mon;
+
+#[global_allocator]
+static GLOBAL: alloc::Counting = alloc::Counting;
